@@ -57,6 +57,11 @@ macro_rules | `(tactic| winv_step) => `(tactic| with_reducible refine winv_emit 
 macro_rules | `(tactic| winv_step) => `(tactic| with_reducible assumption)
 macro "winv_auto" : tactic => `(tactic| repeat' (first | winv_step | split))
 
+theorem winv_noteEvent {w : World} (i : Nat) (h : WInv w) : WInv (w.noteEvent i) := by
+  unfold World.noteEvent
+  exact winv_upd_frame (fun _ hc => hc) h
+macro_rules | `(tactic| winv_step) => `(tactic| with_reducible refine winv_noteEvent _ ?_)
+
 theorem wconn_drop {c : Conn} (h : WConn c) : WConn (dropPendingIo c) := by
   obtain ⟨_, _, h3⟩ := h
   exact ⟨by simp [dropPendingIo], by simp [dropPendingIo], h3⟩
@@ -271,8 +276,8 @@ theorem winv_requestHandler (fuel : Nat) {w : World} (i : Nat) (h : WInv w) : WI
   simp only []
   split
   · winv_auto
-  · have h1 : WInv { (w.emit s!"ev request {cn i} {reqFields (w.get i).rx}") with
-        k := (w.emit s!"ev request {cn i} {reqFields (w.get i).rx}").k + 1 } := h
+  · have h1 : WInv { ((w.noteEvent i).emit s!"ev request {cn i} {reqFields (w.get i).rx}") with
+        k := ((w.noteEvent i).emit s!"ev request {cn i} {reqFields (w.get i).rx}").k + 1 } := winv_noteEvent i h
     winv_auto
 macro_rules | `(tactic| winv_step) => `(tactic| with_reducible refine winv_requestHandler _ _ ?_)
 
